@@ -221,6 +221,18 @@ var (
 	reLetter   = regexp.MustCompile(`[A-Za-z]`)
 )
 
+// caseVariants: at least two of the strings differ only in letter case.
+func caseVariants(ss ...string) bool {
+	for i := range ss {
+		for j := i + 1; j < len(ss); j++ {
+			if ss[i] != ss[j] && strings.EqualFold(ss[i], ss[j]) {
+				return true
+			}
+		}
+	}
+	return false
+}
+
 func hasLetter(s string) bool { return reLetter.MatchString(strings.TrimPrefix(s, "v")) }
 
 func features(kind string, ss ...string) []string {
@@ -251,6 +263,9 @@ func features(kind string, ss ...string) []string {
 	}
 	if len(dots) > 1 {
 		out = append(out, kind+".differing_component_counts")
+	}
+	if caseVariants(ss...) {
+		out = append(out, kind+".case_variant")
 	}
 	return out
 }
